@@ -109,6 +109,15 @@ theorem fid_key0_witness : parseFid (fidString ⟨3, 0, 5⟩) = none := by decid
 theorem fid_accepts_out_of_range_vid_witness :
     parseFid "4294967297,01637037d6".toList = some ⟨1, 1, 0x637037d6⟩ := by decide +kernel
 
+/-- every file id with a non-zero 64-bit key, 32-bit volume id and 32-bit cookie survives String → ParseFileIdFromString -/
+theorem fid_roundtrip (vid key cookie : Nat) (hk : 0 < key) (hk' : key < 2 ^ 64) (hv : vid < 2 ^ 32)
+    (hc : cookie < 2 ^ 32) : parseFid (fidString ⟨vid, key, cookie⟩) = some ⟨vid, key, cookie⟩ :=
+  fid_roundtrip_lemma vid key cookie hk hk' hv hc
+
+/-- non-vacuity of `fid_roundtrip`: its hypotheses are satisfiable -/
+example : parseFid (fidString ⟨3, 0x01637037, 0xd6000001⟩) = some ⟨3, 0x01637037, 0xd6000001⟩ :=
+  fid_roundtrip 3 0x01637037 0xd6000001 (by decide) (by decide) (by decide) (by decide)
+
 /-! ### Bridges to the regenerated source facts (T1) -/
 
 theorem bridge_entry_size :
